@@ -402,10 +402,12 @@ def _queue_keys(prefix):
     """
     if prefix is None:
         return ''
-    return " AND length(key) = %d AND substr(key, %d) NOT GLOB '*[^0-9]*'" % (
-        len(prefix) + 16,
-        len(prefix) + 2,
-    )
+    # Compare bytes: SQL text functions stop at a NUL character in the prefix.
+    size = len(prefix.encode('utf-8'))
+    return (
+        ' AND length(CAST(key AS BLOB)) = %d'
+        " AND hex(substr(CAST(key AS BLOB), %d)) GLOB '%s'"
+    ) % (size + 16, size + 2, '3[0-9]' * 15)
 
 
 def args_to_key(base, args, kwargs, typed, ignore):
